@@ -58,14 +58,31 @@ pub fn gtext(min: usize) -> BoxedStrategy<String> {
         4 => proptest::collection::vec(gchar(), min.max(9)..=40),
         // lengths around the inline capacity of the small-string type (23 bytes) and around powers of two,
         // mostly ASCII so that the byte length is the character count
-        1 => (prop_oneof![Just(22usize), Just(23), Just(24), Just(25), Just(31), Just(32), Just(33), Just(63), Just(64), Just(65)], gchar(), select(ALNUM))
-            .prop_map(|(n, odd, fill)| {
+        2 => (
+            prop_oneof![Just(22usize), Just(23), Just(24), Just(25), Just(31), Just(32), Just(33), Just(63), Just(64), Just(65), Just(66), Just(80)],
+            gchar(),
+            prop_oneof![3 => select(ALNUM), 1 => select(CASEY), 1 => select(&['.', '-', '_', '/', ' '][..])],
+            0usize..3,
+        )
+            .prop_map(|(n, odd, fill, at)| {
+                // one odd character at the start, in the middle or at the end of a long run
                 let mut v: Vec<char> = std::iter::repeat(fill).take(n).collect();
-                if n > 0 {
-                    v[n / 2] = odd;
-                }
+                let pos = match at {
+                    0 => 0,
+                    1 => n / 2,
+                    _ => n - 1,
+                };
+                v[pos] = odd;
                 v
             }),
+        // long runs of decimal digits (values around and beyond u64 / u128)
+        1 => (18usize..=42, select(&['0', '1', '9'][..]), select(&['0', '5', '6', '9'][..])).prop_map(|(n, fill, last)| {
+            let mut v: Vec<char> = std::iter::repeat(fill).take(n).collect();
+            v[n - 1] = last;
+            v
+        }),
+        // ordinary words with a dot, a dash or a digit (file names, versions)
+        1 => select(&["v1.2", "main.rs", "lib.so.1", "1.0.0-rc.1+build", "node_modules", "a.b", "x-y", "README.md"][..]).prop_map(|s| s.chars().collect::<Vec<char>>()),
     ]
     .prop_map(|v| v.into_iter().collect::<String>())
     .boxed()
@@ -96,9 +113,13 @@ pub const KNOWN_TYPES: &[&str] = &["cargo", "gem", "golang", "maven", "npm", "nu
 pub fn gkey() -> BoxedStrategy<String> {
     const FIRST: &[char] = &['a', 'b', 'k', 'r', 'z', 'A', 'B', 'K', 'Z'];
     const REST: &[char] = &['a', 'k', 'z', 'A', 'K', 'Z', '0', '5', '9', '.', '_', '-'];
-    (select(FIRST), proptest::collection::vec(select(REST), 0..=5))
-        .prop_map(|(f, r)| {
-            let s: String = std::iter::once(f).chain(r).collect();
+    let short = (select(FIRST), proptest::collection::vec(select(REST), 0..=5)).prop_map(|(f, r)| std::iter::once(f).chain(r).collect::<String>());
+    // long keys: a short head, a long run of one letter, a short tail - lengths around 23 and 64, so
+    // that two long keys of one collection usually share a long prefix
+    let long = (select(FIRST), select(&['a', 'A'][..]), select(&[21usize, 22, 23, 24, 62, 63, 64, 65][..]), proptest::collection::vec(select(REST), 1..=2))
+        .prop_map(|(f, fill, n, tail)| std::iter::once(f).chain(std::iter::repeat(fill).take(n)).chain(tail).collect::<String>());
+    prop_oneof![12 => short, 1 => long]
+        .prop_map(|s| {
             if s.eq_ignore_ascii_case("checksum") {
                 "checksun".to_string()
             } else {
@@ -107,6 +128,9 @@ pub fn gkey() -> BoxedStrategy<String> {
         })
         .boxed()
 }
+
+#[allow(dead_code)]
+fn _unused() {}
 
 pub fn is_valid_type(s: &str) -> bool {
     !s.is_empty() && s.bytes().all(|b| b.is_ascii_alphanumeric() || b == b'.' || b == b'+' || b == b'-')
